@@ -7,9 +7,10 @@ SeqsUpTo(S, n) == IF n = 0 THEN {<<>>} ELSE SeqsUpTo(S, n - 1) \cup {Append(s, x
 ItemSeqs == {s \in SeqsUpTo(1..Len(V.items), MaxItems) : Cardinality(ToSet(s)) = Len(s)}
 AllStates(d) == {RenderState(h, sg, it, fr, sl) : h \in 1..Len(V.hosts), sg \in SeqsUpTo(1..Len(V.segs), MaxSegs),
                                                    it \in {x \in ItemSeqs : Len(x) <= 1}, fr \in {1}, sl \in BOOLEAN}
-Deep(d) == {RenderState(f[1], <<f[2], f[3], f[4], f[5]>>, <<f[6], f[7]>>, f[8], FALSE) :
-              f \in RandomSubset(NRand, (1..Len(V.hosts)) \X (1..Len(V.segs)) \X (1..Len(V.segs)) \X (1..Len(V.segs)) \X (1..Len(V.segs))
-                                        \X (1..Len(V.items)) \X (1..Len(V.items)) \X (1..Len(V.frags)))}
+Deep(d) == LET A == SetToSeq(RandomSubset(NRand, [1..4 -> 1..Len(V.segs)]))         \* sampled 4-segment paths ...
+               B == SetToSeq((1..Len(V.hosts)) \X (1..Len(V.items)) \X (1..Len(V.items)) \X (1..Len(V.frags)))   \* ... cycling over host / items / fragment
+           IN {RenderState(B[(i % Len(B)) + 1][1], <<A[i][1], A[i][2], A[i][3], A[i][4]>>,
+                           <<B[(i % Len(B)) + 1][2], B[(i % Len(B)) + 1][3]>>, B[(i % Len(B)) + 1][4], FALSE) : i \in 1..Len(A)}
           \cup {RenderState(h, sg, it, fr, FALSE) : h \in {1}, sg \in SeqsUpTo(1..Len(V.segs), 1), it \in ItemSeqs, fr \in 1..Len(V.frags)}
 \* every path of MaxSegs + 1 segments on the first host, bare (truncated routes such as '/document/d/e', '/x/photos/a.1')
 OneDeeper(d) == {RenderState(1, sg, <<>>, 1, sl) : sg \in {t \in SeqsUpTo(1..Len(V.segs), MaxSegs + 1) : Len(t) = MaxSegs + 1}, sl \in BOOLEAN}
